@@ -7,6 +7,8 @@ import Mercure.Model.Subscribe
 import Mercure.Model.Hub
 import Mercure.Model.Retention
 import Mercure.Model.Sys
+import Mercure.Model.Timed
+import Mercure.Model.Config
 import Mercure.Generated.Facts
 import Std.Data.HashMap
 /-
@@ -129,6 +131,27 @@ def parseFlags (s : String) : Option Sys.Flags :=
 
 def natList (s : String) : List Nat := if s == "-" then [] else (s.splitOn ",").filterMap String.toNat?
 
+namespace CfgWire
+open Mercure.Config
+def kv (fields : List String) : Std.HashMap String String :=
+  fields.foldl (fun m f => match f.splitOn "=" with | k :: v :: _ => m.insert k v | _ => m) {}
+def keyClass (s : String) : KeyClass :=
+  if s == "text" then .text else if s == "rsa" then .rsaPem else if s == "ec" then .ecPem else if s == "ed" then .edPem else .absent
+def optNat (s : Option String) : Option Nat := s.bind String.toNat?
+def optStr (s : Option String) : Option Str := match s with | some v => if v == "-" then none else unhex v | none => none
+def origins (s : Option String) : List Origin :=
+  match s with
+  | none => []
+  | some v => if v == "-" then [] else (v.splitOn ",").filterMap (fun o => match o.splitOn ":" with
+      | [t, ok] => (unhex t).map (fun t => { text := t, valid := ok == "1" }) | _ => none)
+def showErr : Err → String
+  | .noPublisherKey => "noPublisherKey" | .noSubscriberKey => "noSubscriberKey" | .badPublisherKey => "badPublisherKey"
+  | .badSubscriberKey => "badSubscriberKey" | .badOrigin => "badOrigin" | .badVersion => "badVersion" | .badDirective => "badDirective"
+def showEff : Except Err Effective → String
+  | .error e => "err:" ++ showErr e
+  | .ok e => s!"ok anon={showBool e.anonymous} subs={showBool e.subscriptions} wt={e.wt} dt={e.dt} hb={e.hb} pubAlg={hex e.pubAlg} subAlg={match e.subAlg with | some a => hex a | none => "-"} porigins={hexList e.publishOrigins} corigins={hexList e.corsOrigins} cookie={hex e.cookieName} compat7={showBool e.compat7}"
+end CfgWire
+
 def step (st : DSt) (line : String) : DSt × String :=
   let M := matchSpec st.oracle.toT
   match line.splitOn "\t" with
@@ -165,9 +188,54 @@ def step (st : DSt) (line : String) : DSt × String :=
     let n := st.sys.threads.length
     let σ := (List.range n).foldl (fun σ i => (List.range 400).foldl (fun σ _ => (Sys.step σ i).σ) σ) st.sys
     ({ st with sys := { σ with threads := [] } }, "ok")
+  | ["sys.seqsteps", n] =>
+    -- sequential execution: thread 0 to completion, then thread 1, …; stop after n steps in total
+    match n.toNat? with
+    | some n =>
+      let rec go (fuel : Nat) (σ : Sys.Sys) (i : Nat) (left : Nat) : Sys.Sys :=
+        match fuel, left with
+        | 0, _ => σ
+        | _, 0 => σ
+        | fuel + 1, left + 1 =>
+          match σ.threads[i]? with
+          | none => σ
+          | some t => if t.stack.isEmpty then go fuel σ (i + 1) (left + 1) else go fuel (Sys.step σ i).σ i left
+      ({ st with sys := go (n + st.sys.threads.length + 4) st.sys 0 n }, "ok")
+    | none => (st, "bad-op")
   | ["sys.restart"] => ({ st with sys := Sys.restart st.sys [] [] }, "ok")
   | ["sys.clear"] => ({ st with sys := { st.sys with subs := [], threads := [] } }, "ok")
   | ["sys.obs"] => (st, SysShow.obs st.sys)
+  | ["timed", wt, dt, hb, exp, arr, close, horizon] =>
+    match wt.toNat?, dt.toNat?, hb.toNat?, horizon.toNat? with
+    | some wt, some dt, some hb, some hz =>
+      let arrivals : List (Nat × Nat) := if arr == "-" then [] else (arr.splitOn ",").filterMap (fun p =>
+        match p.splitOn ":" with | [t, i] => (match t.toNat?, i.toNat? with | some t, some i => some (t, i) | _, _ => none) | _ => none)
+      let tr := Timed.run { wt, dt, hb, exp := exp.toNat? } arrivals close.toNat? hz
+      (st, " ".intercalate (tr.map (fun (t, e) => s!"{t}:" ++ (match e with
+        | .comment => "c" | .event i => s!"e{i}" | .failed => "fail" | .selfClose => "self" | .clientClose => "client" | .endWrite => "endwrite"))))
+    | _, _, _, _ => (st, "bad-op")
+  | "cfg.caddy" :: fields =>
+    let m := CfgWire.kv fields
+    let c : Config.Caddy := {
+      anonymous := m.get? "anon" == some "1", subscriptions := m.get? "subs" == some "1",
+      wt := CfgWire.optNat (m.get? "wt"), dt := CfgWire.optNat (m.get? "dt"), hb := CfgWire.optNat (m.get? "hb"),
+      pubKey := CfgWire.keyClass ((m.get? "pubKey").getD ""), pubAlg := CfgWire.optStr (m.get? "pubAlg"),
+      subKey := CfgWire.keyClass ((m.get? "subKey").getD ""), subAlg := CfgWire.optStr (m.get? "subAlg"),
+      publishOrigins := CfgWire.origins (m.get? "porigins"), corsOrigins := CfgWire.origins (m.get? "corigins"),
+      cookieName := CfgWire.optStr (m.get? "cookie"), compat := CfgWire.optNat (m.get? "compat"),
+      badArgs := m.get? "bad" == some "1" }
+    (st, CfgWire.showEff (Config.provisionCaddy c))
+  | "cfg.legacy" :: fields =>
+    let m := CfgWire.kv fields
+    let l : Config.Legacy := {
+      defaults := m.get? "defaults" == some "1",
+      jwtKey := CfgWire.keyClass ((m.get? "jwtKey").getD ""), jwtAlg := CfgWire.optStr (m.get? "jwtAlg"),
+      pubKey := CfgWire.keyClass ((m.get? "pubKey").getD ""), pubAlg := CfgWire.optStr (m.get? "pubAlg"),
+      subKey := CfgWire.keyClass ((m.get? "subKey").getD ""), subAlg := CfgWire.optStr (m.get? "subAlg"),
+      anonymous := m.get? "anon" == some "1", subscriptions := m.get? "subs" == some "1",
+      wt := CfgWire.optNat (m.get? "wt"), dt := CfgWire.optNat (m.get? "dt"), hb := CfgWire.optNat (m.get? "hb"),
+      publishOrigins := CfgWire.origins (m.get? "porigins"), corsOrigins := CfgWire.origins (m.get? "corigins") }
+    (st, CfgWire.showEff (Config.provisionLegacy Facts.legacyFlags l))
   | ["ret.new", size] =>
     match size.toNat? with
     | some sz => ({ st with ret := {}, retSize := sz }, "ok")
